@@ -276,9 +276,10 @@ package keeper
 //@ end
 //@ func Keeper.validateDeposit(ctx, deposit)
 //@   property C07
-//@   trusted
 //@   returns err
+//@   requires has(prm)
 //@   ensures shape: err == nil ==> (forall d:Str :: amt(deposit, d) >= 0)
+//@   ensures base_only: err == nil ==> len(deposit) == 1 && coinat(deposit, 0).Denom == get(prm).BaseDenom
 //@   nopanic
 //@ end
 
@@ -353,7 +354,6 @@ package keeper
 // module callbacks run code of the registering module: assumed not to touch this module's store or its escrow accounts
 //@ func Keeper.CompleteBatch(ctx, requestContext, requestContextID)
 //@   property C07, C08
-//@   trusted
 //@   returns rc
 //@   ensures done: rc == with(requestContext, "BatchState", types.BATCHCOMPLETED)
 //@   nopanic
@@ -428,16 +428,18 @@ package keeper
 // Outputs handed to a module callback: only non-empty ones (error responses carry no output and do not count
 // towards the response threshold).
 //@ func Keeper.GetResponseOutputs(ctx, requestContextID, batchCounter)
-//@   property C08
+//@   property C08, C13
 //@   returns outputs
 //@   invariant #1 nonempty: forall j:Int :: 0 <= j && j < len(outputs) ==> len(outputs[j]) > 0
 //@   ensures valid_only: forall j:Int :: 0 <= j && j < len(outputs) ==> len(outputs[j]) > 0
+//@   nopanic C13
 //@ end
 
 //@ func Keeper.validateServiceFeeCap(ctx, serviceFeeCap)
 //@   property C08, C13
-//@   trusted
 //@   returns err
+//@   requires has(prm)
+//@   ensures base_only: err == nil ==> len(serviceFeeCap) == 1 && coinat(serviceFeeCap, 0).Denom == get(prm).BaseDenom
 //@   nopanic
 //@ end
 
@@ -591,10 +593,12 @@ package keeper
 //@   nopanic C13, C16
 //@ end
 
+//@ family definitions key types.GetServiceDefinitionKey value types.ServiceDefinition
 //@ func Keeper.GetServiceDefinition(ctx, serviceName)
 //@   property C07
-//@   trusted
 //@   returns def, found
+//@   ensures reads: found == has(definitions, serviceName) && (found ==> def == get(definitions, serviceName))
+//@   nopanic
 //@ end
 
 // AddServiceBinding: a new binding records exactly the deposit that is moved into the escrow.
